@@ -21,6 +21,7 @@ import (
 	"fmt"
 	"os"
 	"runtime"
+	"runtime/debug"
 	"runtime/pprof"
 	"sort"
 	"strings"
@@ -180,6 +181,8 @@ var (
 	digOwner   sync.Map // digest -> class
 	collisions atomic.Int64
 	collEx     sync.Map
+	evalCnt    atomic.Int64
+	workers    int
 )
 
 func names(p []op) []string {
@@ -196,7 +199,7 @@ func evaluate(path []op, m *model, withTx bool) {
 		r.Violation("panic", map[string]any{"ops": names(path), "panic": fmt.Sprint(rec)})
 		return
 	}
-	r.Eval()
+	evalCnt.Add(1)
 	cls := canon(m.blk)
 	if o.dump != cls {
 		r.Violation("writeset:not-the-net-write-set", map[string]any{"ops": names(path), "got": o.dump, "net": cls})
@@ -243,6 +246,12 @@ func main() {
 	if sharedStore, err = leveldbstore.NewMemLevelDBStore(); err != nil {
 		r.HarnessError("mem store: %v", err)
 	}
+	// resource bounds: thorough <= 8 workers; memory is O(#net write sets) + the 4096-state phase-A frontier (< 200 MB)
+	workers = runtime.NumCPU()
+	if r.Thorough() && workers > 8 {
+		workers = 8
+	}
+	debug.SetMemoryLimit(int64(r.QT(2, 4)) << 30)
 	r.Require("same_net_different_history", "tombstone_in_net_write_set", "via_tx_commit", "tx_reset_discards", "delete_then_put", "redundant_overwrite")
 	all := menu("blk", "tx")
 	blkOnly := menu("blk")
@@ -284,7 +293,7 @@ func main() {
 			return state{nm, path}, true
 		},
 		Key:     func(s state) string { return canon(s.m.blk) + "|" + canon(s.m.tx) },
-		Workers: runtime.NumCPU(),
+		Workers: workers,
 		Stop:    r.Expired,
 		Inv: func(s state, path []string) {
 			r.Case(canon(s.m.blk) + "|" + canon(s.m.tx))
@@ -335,7 +344,7 @@ func main() {
 		var wg sync.WaitGroup
 		ch := make(chan item)
 		var cut atomic.Bool
-		for w := 0; w < runtime.NumCPU(); w++ {
+		for w := 0; w < workers; w++ {
 			wg.Add(1)
 			go func() {
 				defer wg.Done()
@@ -424,6 +433,8 @@ func main() {
 	r.Note("net_write_sets", map[string]any{"classes": nClasses, "with_more_than_one_history": multi, "with_tombstone": tomb})
 	r.Assume("the contract-level map-iteration-order part of the property is explored by C16; here: digest/write set are functions of the MemDB's net content for every insertion order / intermediate history")
 	pprof.StopCPUProfile()
+	r.Evals(int(evalCnt.Load()))
+	r.Note("resource_bounds", map[string]any{"workers": workers, "mem_limit_gib": r.QT(2, 4)})
 	r.Finish(map[string]any{
 		"rule":   "same net write set (tombstones included) => same ChangeHash, same GetWriteSet dump, same state root; different net write sets => different dumps",
 		"keys":   fmt.Sprintf("%q", ckeys), "values": fmt.Sprintf("%q + empty + Delete", vals),
